@@ -8,14 +8,51 @@ import (
 // suites maps a suite name to its case enumeration per tier.
 var suites = map[string]func(tier string) []*families.Case{
 	"beh": behSuite,
+	"f2":  f2Suite,
+}
+
+// f2Suite: development suite for the -switch optimiser (the F2 part of the thorough tier).
+func f2Suite(tier string) []*families.Case {
+	var cs []*families.Case
+	cs = append(cs, families.F2(3, 22, []string{"plain"}, false, 3, []string{"", "s", "is"})...)
+	cs = append(cs, families.F2(3, 8, []string{"plain", "star", "after", "peek", "outer"}, true, 3, []string{"", "s", "is", "ns"})...)
+	if tier == "thorough" {
+		cs = append(cs, families.F2(4, 8, []string{"plain"}, false, 3, []string{"", "s"})...)
+	}
+	return cs
 }
 
 func behSuite(tier string) []*families.Case {
 	var cs []*families.Case
+	ast := spec.ASTVariants
 	if tier == "thorough" {
 		cs = append(cs, families.F1(1, 4, 4, spec.AllVariants)...)
+		cs = append(cs, families.F1(5, 5, 3, []string{""})...)
+		cs = append(cs, families.F2(3, 22, []string{"plain"}, false, 3, []string{"", "s", "is"})...)
+		cs = append(cs, families.F2(3, 8, []string{"plain", "star", "after", "peek", "outer"}, true, 3, []string{"", "s", "is", "ns"})...)
+		cs = append(cs, families.F2(4, 8, []string{"plain"}, false, 3, []string{"", "s"})...)
+		cs = append(cs, families.F3(4, spec.AllVariants)...)
+		cs = append(cs, families.F4(3, spec.AllVariants)...)
+		cs = append(cs, families.F5(4, ast)...)
+		cs = append(cs, families.F6(4, 4, []string{"", "is", "n", "ni", "ns"})...)
+		cs = append(cs, families.F7(3, 3, []string{"", "is", "n"})...)
+		cs = append(cs, families.F8(3, 3, []string{"", "i", "s", "n", "ns"})...)
+		cs = append(cs, families.F10(4, 4, []string{"", "i"})...)
+		h := append(families.F1(1, 3, 0, nil), families.F4(0, nil)...)
+		h = append(h, families.F7(2, 0, nil)...)
+		cs = append(cs, families.Hostile(h, 4, []string{"", "is", "n"})...)
 	} else {
 		cs = append(cs, families.F1(1, 3, 3, spec.AllVariants)...)
+		cs = append(cs, families.F2(3, 8, []string{"plain"}, false, 3, []string{"", "s", "is"})...)
+		cs = append(cs, families.F3(3, []string{"", "i", "is", "n"})...)
+		cs = append(cs, families.F4(3, []string{"", "s", "n"})...)
+		cs = append(cs, families.F5(4, []string{"", "is"})...)
+		cs = append(cs, families.F6(4, 3, []string{"", "n"})...)
+		cs = append(cs, families.F7(2, 3, []string{"", "is"})...)
+		cs = append(cs, families.F8(3, 3, []string{"", "n"})...)
+		cs = append(cs, families.F10(4, 4, []string{""})...)
+		h := append(families.F1(1, 2, 0, nil), families.F4(0, nil)[:40]...)
+		cs = append(cs, families.Hostile(h, 3, []string{"", "is"})...)
 	}
 	return cs
 }
